@@ -407,6 +407,15 @@ def gen_lb():
     body += "Definition rr_step_is_one : bool := %s.\n" % ("true" if step_one else "false")
     body += "Definition rr_index_is_ticket_mod_len : bool := %s.\n" % ("true" if mod_len else "false")
     body += "Definition hash_index_is_hash_mod_len : bool := %s.\n" % ("true" if hash_mod_len else "false")
+    # connect: the selected member is recorded on the context before the request is handed to it, and nothing can leave the
+    # function between the two (no `?`, no return)
+    blk = block_after(src, r"impl\s+Connector\s+for\s+LoadBalanceConnector\s*\{")
+    cb = fn_body(blk, "connect")
+    i_rec = cb.find("set_connector(")
+    m_del = re.search(r"\bconn\s*\.\s*connect\s*\(", cb)
+    before = i_rec >= 0 and m_del is not None and i_rec < m_del.start() and "?" not in cb[i_rec:m_del.start()] and "return" not in cb[i_rec:m_del.start()] \
+        and cb.count("set_connector(") == 1
+    body += "Definition lb_records_member_before_delegating : bool := %s.\n" % ("true" if before else "false")
     return body
 
 
@@ -730,6 +739,42 @@ def gen_locks():
     out += "Definition programs : list (string * list step) := [\n"
     out += ";\n".join('  ("%s", [%s])' % (n, "; ".join(show(e) for e in evs)) for n, evs in progs)
     out += "\n].\n"
+    # loops that serve many peers one after the other (accept loops): what such a loop awaits between two peers.  A handshake
+    # (TLS accept, QUIC `conn.await`, protocol handshake) must be awaited inside a task spawned for that peer, never in the loop
+    def loop_waits_inline(path, fn, accept_pat, inline_pats):
+        try:
+            body = fn_body(src(path), fn)
+        except SystemExit:
+            return True
+        m = re.search(accept_pat, body)
+        if not m:
+            return True
+        loop = body[m.end():]
+        # text of the loop body outside every tokio::spawn( ... ) argument
+        outside, i = "", 0
+        while i < len(loop):
+            j = loop.find("tokio::spawn(", i)
+            if j < 0:
+                outside += loop[i:]
+                break
+            outside += loop[i:j]
+            depth, k = 0, j + len("tokio::spawn")
+            while k < len(loop):
+                if loop[k] == "(":
+                    depth += 1
+                elif loop[k] == ")":
+                    depth -= 1
+                    if depth == 0:
+                        break
+                k += 1
+            i = k + 1
+        return any(re.search(pt, outside) for pt in inline_pats)
+    waits = {
+        "http": loop_waits_inline("src/listeners/http.rs", "accept", r"listener\s*\.\s*accept\s*\(\s*\)\s*\.\s*await", [r"create_context\s*\(", r"h11c_handshake\s*\(", r"acceptor\s*\.\s*accept"]),
+        "socks": loop_waits_inline("src/listeners/socks.rs", "accept", r"listener\s*\.\s*accept\s*\(\s*\)\s*\.\s*await", [r"\.\s*handshake\s*\([^)]*\)\s*\.\s*await", r"acceptor\s*\.\s*accept"]),
+        "quic": loop_waits_inline("src/listeners/quic.rs", "accept", r"endpoint\s*\.\s*accept\s*\(\s*\)\s*\.\s*await", [r"\bconn\s*\.\s*await", r"client_thread\s*\([^)]*\)\s*\.\s*await"]),
+    }
+    out += "Definition accept_loop_awaits_handshake_inline : list (string * bool) := [%s].\n" % "; ".join('("%s", %s)' % (k, "true" if v else "false") for k, v in waits.items())
     return out
 
 
